@@ -1,5 +1,5 @@
 """C10 - every reported source location is the true line and column (DESIGN.md section 4, C10)."""
-from .common import A, lemma_obligations
+from .common import run_native, A, lemma_obligations
 
 LEVEL = "proof"
 EXPLANATION = (
@@ -20,6 +20,8 @@ UNVERIFIED = [
 TRUSTED = []
 ASSUMPTIONS = [A["A1"], A["A2"], A["A3"], A["A4"], A["A8"], A["ALIAS"], A["ENGINE"]]
 LIFTERS = ["props.C10:lift"]
+STANDIN = "props.C10:search"
+STANDIN_BUDGET = "all compositions of up to 4 lexical fragments (15 fragments) + 30000 random compositions of 5-8"
 
 
 def extra_obligations(world, tier, seed):
@@ -101,7 +103,7 @@ FRAGMENTS = ['"""', "\r\n", "\n", "\r", "a", " ", '\\"""', "#c", '"s"', "1.5", "
              "\x0c", "x" * 130]
 
 
-def search(budget=30000, seed=0):
+def search(budget=30000, seed=0, **_):
     """Search short compositions of lexical fragments for a location disagreement."""
     import itertools
     import random
@@ -130,3 +132,28 @@ def lift(model, req):
         return {"confirmed": True, "entry": "search over short compositions of lexical fragments",
                 "failure": f}
     return {"confirmed": False}
+
+
+WITNESSES = {
+ 'F2-get_location-terminators': r'''
+from graphql import Source, GraphQLSyntaxError, parse
+assert tuple(Source('{\n?').get_location(2)) == (2, 1)
+assert tuple(Source('\u2028?').get_location(1)) == (1, 2)
+assert tuple(Source('a\r\nb\rc').get_location(5)) == (3, 1)
+try:
+    parse('"\u2028" ?')
+except GraphQLSyntaxError as e:
+    str(e)
+''',
+}
+
+
+def native_checks(tier, seed):
+    """Replays of the witnesses of repaired defects (KNOWN_FINDINGS.json 'fixed'): a fixed entry
+    suppresses nothing, so the violation is reported again if it ever returns."""
+    out = []
+    for name, code in WITNESSES.items():
+        rc, outp = run_native(code)
+        out.append({"id": f"C10/native/{name}", "failed": rc != 0, "output": outp,
+                    "input": code.strip()})
+    return out
